@@ -104,22 +104,29 @@ func (tm *TransferManager) handle() {
 				transferI, _ := tm.inTransfers.LoadOrStore(msg.TransferId, NewIncomingTransfer(msg.TransferId))
 				transfer := transferI.(*IncomingTransfer)
 
-				if dam, err := transfer.NextSegment(msg); err != nil {
+				dam, err := transfer.NextSegment(msg)
+				if err != nil {
 					tm.chanErrors <- err
 					return
-				} else {
-					tm.msgOut <- dam
 				}
 
+				// The last segment is only acknowledged after the Bundle was handed over. Otherwise, a session ending
+				// right behind this acknowledgement would let the sender believe in a delivery which never took place.
 				if transfer.IsFinished() {
 					if b, err := transfer.ToBundle(); err != nil {
 						tm.chanErrors <- err
 						return
 					} else {
-						tm.chanBundles <- b
+						select {
+						case tm.chanBundles <- b:
+						case <-tm.stopChan:
+							return
+						}
 					}
 					tm.inTransfers.Delete(msg.TransferId)
 				}
+
+				tm.msgOut <- dam
 
 			// Everything else
 			default:
